@@ -138,13 +138,15 @@ void h_add_poll(void) {
   __CPROVER_assume(mm.m_pollMessages.n <= PQ_CAP - 1 && g_lastPollOrder < 0x7fffff00u && x.m_pollPriority <= 9 && x.m_pollOrder < 0x7fffff00u);
   /* the message comes from its constructor (order 0) or from setPollPriority (inside the window) */
   __CPROVER_assume(x.m_pollOrder == 0 || (x.m_pollOrder >= g_lastPollOrder && x.m_pollOrder <= g_lastPollOrder + (unsigned)x.m_pollPriority));
-  size_t n0 = mm.m_pollMessages.n;
+  size_t n0 = mm.m_pollMessages.n; unsigned order0 = x.m_pollOrder;
   MM_addPollMessage(&mm, front, &x);
   if (x.m_pollPriority == 0) { __CPROVER_assert(mm.m_pollMessages.n == n0, "[C17] a message without poll priority is not queued"); }
   else {
     __CPROVER_assert(mm.m_pollMessages.n == n0 + 1 && g_heap_valid && g_locks == 0, "[C17] a message with poll priority is queued once");
     __CPROVER_assert(x.m_pollOrder >= g_lastPollOrder, "[C17] an added message does not enter the queue before the virtual time of the last selection (it would be polled alone until it has caught up)");
     __CPROVER_assert(x.m_pollOrder <= g_lastPollOrder + (unsigned)x.m_pollPriority, "[C17] an added message enters inside the window");
+    if (order0 >= g_lastPollOrder) { __CPROVER_assert(x.m_pollOrder == order0, "[C17] adding a message that is already scheduled at or after the virtual time leaves its schedule unchanged (repeated additions, to the front or not, buy no extra selections and cost none)"); }
+    if (order0 > g_lastPollOrder && front) { CANARY("scheduled message added to the front again"); }
     CANARY("added");
   }
 }
